@@ -97,7 +97,7 @@ impl Number {
             unit: self
                 .unit
                 .iter()
-                .map(|(k, &power)| (k.clone(), -power))
+                .map(|(k, &power)| (k.clone(), power.saturating_neg()))
                 .collect::<Dimensionality>(),
         }
     }
@@ -107,7 +107,7 @@ impl Number {
         let unit = self
             .unit
             .iter()
-            .map(|(k, &power)| (k.clone(), power * exp as i64))
+            .map(|(k, &power)| (k.clone(), power.saturating_mul(exp as i64)))
             // x^0 is dimensionless, don't keep base units with a zero power around
             .filter(|&(_, power)| power != 0)
             .collect::<Dimensionality>();
@@ -154,6 +154,9 @@ impl Number {
             let exp = exp.unwrap() as i32;
             if exp < 0 && (self.value == Numeric::zero() || self.value == Numeric::Float(0.0)) {
                 return Err("Division by zero".to_string());
+            }
+            if self.unit.clone().checked_pow(exp as i64).is_none() {
+                return Err("Dimension exponent is too large".to_string());
             }
             Ok(self.powi(exp))
         } else if num == one {
@@ -468,7 +471,9 @@ impl Number {
     }
 
     pub fn complexity_score(&self) -> i64 {
-        self.unit.iter().map(|(_, p)| 1 + p.abs()).sum()
+        self.unit
+            .iter()
+            .fold(0i64, |sum, (_, p)| sum.saturating_add(p.saturating_abs()).saturating_add(1))
     }
 
     pub fn dimless(&self) -> bool {
